@@ -10,6 +10,8 @@ package server
 import (
 	"bufio"
 	"bytes"
+	"crypto/aes"
+	"crypto/cipher"
 	"crypto/ecdsa"
 	"crypto/elliptic"
 	crand "crypto/rand"
@@ -17,6 +19,7 @@ import (
 	"crypto/x509"
 	"crypto/x509/pkix"
 	"encoding/base64"
+	"encoding/binary"
 	"encoding/hex"
 	"errors"
 	"fmt"
@@ -116,6 +119,10 @@ type vfC09Peer struct {
 	rdl      time.Time
 	idle     bool
 	timeouts int
+	// scripted failure of the n-th Write of the server on this connection (1 = the first; 0 = never)
+	failWrite  int
+	wattempts  int
+	failedOnce bool
 }
 
 func (c *vfC09Peer) Read(p []byte) (int, error) {
@@ -165,6 +172,13 @@ func (c *vfC09Peer) Write(p []byte) (int, error) {
 	defer w.mu.Unlock()
 	if c.closed {
 		return 0, net.ErrClosed
+	}
+	c.wattempts++
+	if c.failWrite != 0 && c.wattempts == c.failWrite {
+		c.failedOnce = true
+		w.eventCount++
+		w.cond.Broadcast()
+		return 0, errors.New("scripted write failure (connection reset by peer)")
 	}
 	c.got = append(c.got, p...)
 	c.writes++
@@ -460,11 +474,20 @@ type vfC09Obs struct {
 	FinUnsettled      bool
 	FinTarget         []byte
 	FinPeer           []byte
+	FinDials          int  // redirect dials over the whole life of the connection (phase 1 + after the hang-up)
+	FinRet            bool // dispatchConnection had returned at the end of phase 2
+	PeerWFailed       bool // the scripted write failure was hit
 }
 
 // execute one scenario: phase 1 = until settled; phase 2 = the peer hangs up, until settled again
 func vfC09RunScenario(sta *State, chunks [][]byte, eof bool, dialMode string, reply []byte, after int, tclose bool) vfC09Obs {
+	return vfC09RunScenarioX(sta, chunks, eof, dialMode, reply, after, tclose, 0)
+}
+
+// pwfail: the n-th Write of the server on the PEER connection fails (0 = never)
+func vfC09RunScenarioX(sta *State, chunks [][]byte, eof bool, dialMode string, reply []byte, after int, tclose bool, pwfail int) vfC09Obs {
 	w := vfC09NewWorld(chunks, eof, dialMode, reply, after, tclose)
+	w.peer.failWrite = pwfail
 	sta.RedirDialer = &vfC09Dialer{w}
 	w.start(sta)
 	var o vfC09Obs
@@ -494,9 +517,12 @@ func vfC09RunScenario(sta *State, chunks [][]byte, eof bool, dialMode string, re
 	if o.Panicked == "" {
 		w.mu.Lock()
 		t0 := time.Now()
+		session := w.dials == 0 && len(w.peer.got) > 0 && !vfC09QuickSession
 		for {
 			done := w.peer.closed && (w.web == nil || w.web.closed)
-			if done || time.Since(t0) > 80*time.Millisecond {
+			// a served session ends with dispatchConnection returning (http.Serve / serveSession come back once
+			// the session is closed): wait for that too, so that anything it does afterwards is observed
+			if (done && (!session || w.returned)) || time.Since(t0) > 80*time.Millisecond {
 				o.FinUnsettled = !done
 				break
 			}
@@ -506,6 +532,9 @@ func vfC09RunScenario(sta *State, chunks [][]byte, eof bool, dialMode string, re
 		}
 		o.FinPeerClosed = w.peer.closed
 		o.FinPeer = append([]byte{}, w.peer.got...)
+		o.FinDials = w.dials
+		o.FinRet = w.returned
+		o.PeerWFailed = w.peer.failedOnce
 		if w.web != nil {
 			o.FinWebClosed = w.web.closed
 			o.FinTarget = append([]byte{}, w.web.got...)
@@ -530,9 +559,10 @@ func (o vfC09Obs) String() string {
 	if o.HasWeb {
 		fweb = vfC09B(o.FinWebClosed)
 	}
-	s := fmt.Sprintf("ret=%s dials=%d tgt=%s first=%d peer=%s pc=%s wc=%s uns=%s fin=%s%s ftgt=%s fpeer=%s",
+	s := fmt.Sprintf("ret=%s dials=%d tgt=%s first=%d peer=%s pc=%s wc=%s uns=%s fin=%s%s ftgt=%s fpeer=%s fdials=%d fret=%s pwf=%s",
 		vfC09B(o.Ret), o.Dials, vfC09Hex(o.Target), o.FirstLen, vfC09Hex(o.Peer), vfC09B(o.PeerClosed), web,
-		vfC09B(o.Unsettled), vfC09B(o.FinPeerClosed), fweb, vfC09Hex(o.FinTarget), vfC09Hex(o.FinPeer))
+		vfC09B(o.Unsettled), vfC09B(o.FinPeerClosed), fweb, vfC09Hex(o.FinTarget), vfC09Hex(o.FinPeer), o.FinDials,
+		vfC09B(o.FinRet), vfC09B(o.PeerWFailed))
 	if o.DialAddr != "" {
 		s += " addr=" + o.DialAddr
 	}
@@ -708,6 +738,42 @@ type vfC09GenSpec struct {
 	Pv        string `json:"pv"`  // server static private key, from which the public key is derived
 	Seed      int64  `json:"seed"`
 	Domain    string `json:"domain"`
+	// kind "seal": the 64-byte block AES-256-GCM(Key, Nonce, 48-byte plaintext of this spec) - what a forger who
+	// chose the AEAD key himself would put into a first packet
+	Key   string `json:"key"`
+	Nonce string `json:"nonce"`
+}
+
+// the 48-byte authentication plaintext as the property text documents it:
+// UID16 | method12 | enc1 | ts8 | sid4 | flags1 | rsvd6   (written from the statement, not from client/auth.go)
+func vfC09Plaintext(g vfC09GenSpec) []byte {
+	pt := make([]byte, 48)
+	copy(pt[0:16], vfC09Unhex(g.UID))
+	copy(pt[16:28], []byte(g.Method))
+	pt[28] = g.Enc
+	binary.BigEndian.PutUint64(pt[29:37], uint64(g.Ts))
+	binary.BigEndian.PutUint32(pt[37:41], g.Sid)
+	if g.Unordered {
+		pt[41] |= 1
+	}
+	return pt
+}
+
+// AES-256-GCM straight from the standard library (not through internal/common)
+func vfC09Seal(g vfC09GenSpec) ([]byte, error) {
+	key, nonce := vfC09Unhex(g.Key), vfC09Unhex(g.Nonce)
+	if len(key) != 32 || len(nonce) != 12 {
+		return nil, errors.New("seal: key must be 32 bytes, nonce 12")
+	}
+	blk, err := aes.NewCipher(key)
+	if err != nil {
+		return nil, err
+	}
+	aead, err := cipher.NewGCM(blk)
+	if err != nil {
+		return nil, err
+	}
+	return aead.Seal(nil, nonce, vfC09Plaintext(g), nil), nil
 }
 
 func vfC09PubOf(pvHex string) []byte {
@@ -904,7 +970,7 @@ func vfC09ErrClass(err error) string {
 		return "parse:http"
 	case strings.Contains(m, ErrBadGET.Error()):
 		return "parse:badget"
-	case strings.Contains(m, "bad input point") || strings.Contains(m, "low order"):
+	case strings.Contains(m, "bad input point") || strings.Contains(m, "low order") || strings.Contains(m, "bad X25519 remote ECDH input"):
 		return "parse:dh"
 	}
 	return "other:" + strings.ReplaceAll(m, " ", "_")
